@@ -38,7 +38,23 @@ def parse_criteria(criteria):
             else:
                 break
 
+        ordering = operator in (
+            CRITERIA_OPERATORS['<'], CRITERIA_OPERATORS['<='],
+            CRITERIA_OPERATORS['>'], CRITERIA_OPERATORS['>='])
+
+        def kind(item):
+            # Dates are numbers as far as criteria are concerned.
+            item = func_xltypes.ExcelType.cast_from_native(item)
+            if isinstance(item, func_xltypes.DateTime):
+                return func_xltypes.Number
+            return type(item)
+
         def check(probe):
+            # An ordering criterion only matches cells of its operand's own
+            # type: ">1" does not count text although text sorts after
+            # numbers.
+            if ordering and kind(probe) != kind(value):
+                return False
             return operator(probe, value)
 
         return check
